@@ -54,7 +54,8 @@ def plan_calls(rng, idl, aliases):
             ev = SG.rand_value(rng, e[3], aliases) if e[3] else {}
             calls.append(dict(method=m[1], flags=0, **{"in": SG.rand_value(rng, ins, aliases)}, outs=[], error=(e[1], ev)))
         if ins[1]:
-            calls.append(dict(method="@badparams", target=m[1], raw="5", flags=0, error=None))
+            # parameters the dispatcher cannot decode into the method's input struct: a wrong JSON type, null, none at all
+            calls.append(dict(method="@badparams", target=m[1], raw=rng.choice(["5", "5", "[1,2]", "null", "-", "-"]), flags=0, error=None))
     calls.append(dict(method="Unimpl", flags=0, **{"in": {}}, outs=[{}], error=None))
     calls.append(dict(method="@unknown", flags=0, error=None))
     rng.shuffle(calls)
@@ -73,7 +74,8 @@ def expectations(idl, aliases, calls):
             exp.append([dict(sent={"method": iface + ".NoSuchMethod", "parameters": None}, err="MethodNotFound:NoSuchMethod")])
             continue
         if mn == "@badparams":
-            exp.append([dict(sent={"method": iface + "." + c["target"], "parameters": 5}, err="InvalidParameter:parameters")])
+            exp.append([dict(sent={"method": iface + "." + c["target"], "parameters": {"5": 5, "[1,2]": [1, 2], "null": None, "-": None}[c["raw"]]},
+                             err="InvalidParameter:parameters")])
             continue
         m = methods[mn]
         sent = {"method": iface + "." + mn}
